@@ -20,7 +20,8 @@ Literal, total, executable mirror of
 External calls are parameters (`Ext`): `Timestamp::parse` ∘ `fmt_timestamp` (property C14 owns them).
 Tracks /repo at c575458 (integers: `parse_integer`, since 7ec6a52; text: CR written as `&#13;`, since 7fbc5bc;
 character data = all text pieces and CDATA sections of the element, since c575458; character data outside the
-document element is refused by `read_event`, which keeps the nesting depth, since d51737b).
+document element is refused by `read_event`, which keeps the nesting depth, since d51737b; `Deserializer::text`
+normalises the line ends of every text piece and CDATA section before references are resolved, since eab498c).
 The lookahead state `peeked` / `next_slot` of `Deserializer` is the head of the remaining event list here:
 `peek_event` = look at the head, `consume_peeked` / `next_event` = drop it; `Empty` is expanded by `deEvents`.
 -/
@@ -255,6 +256,31 @@ def decodeStr (raw : Bytes) : Except DeErr Bytes :=
     | none => .error .invalidXml
   else .error .invalidXml
 
+/-! ### line ends (XML 1.0 §2.11; `normalize_line_ends` / `normalize_text` of `xml/de.rs`, since eab498c) -/
+
+/-- `str::replace("\r\n", "\n")` -/
+def replaceCrLf : Bytes → Bytes
+  | [] => []
+  | 13 :: 10 :: r => 10 :: replaceCrLf r
+  | c :: r => c :: replaceCrLf r
+
+/-- `str::replace('\r', "\n")` -/
+def replaceCrByLf : Bytes → Bytes
+  | [] => []
+  | c :: r => (if c = 13 then 10 else c) :: replaceCrByLf r
+
+/-- `normalize_line_ends(s)` on a `&str`: borrowed as it is when there is no CR, otherwise
+`s.replace("\r\n", "\n").replace('\r', "\n")` -/
+def normLineEnds (s : Bytes) : Bytes :=
+  if s.contains 13 then replaceCrByLf (replaceCrLf s) else s
+
+/-- `normalize_text(x)` on a text event (raw, references not yet resolved — so `&#13;` stays a CR): untouched when
+there is no CR; a text that is not UTF-8 is handed on as it is (no content parser accepts it) -/
+def normText (x : Bytes) : Bytes :=
+  if x.contains 13 then
+    if utf8Valid x then normLineEnds x else x
+  else x
+
 /-- `Deserializer::joined_text`: the joined buffer, with the first text piece (if still held in `single`) unescaped
 into it -/
 def joinedText (single joined : Option Bytes) : Except DeErr Bytes :=
@@ -266,9 +292,11 @@ def joinedText (single joined : Option Bytes) : Except DeErr Bytes :=
   | none => .ok (joined.getD [])
 
 /-- the loop of `Deserializer::text` (since c575458): the character data of an element is all its text pieces and
-CDATA sections up to the end tag (comments and PIs are already skipped). A lone text piece stays as it is
-(`single`, still escaped); as soon as there is a second piece or a CDATA section everything is unescaped into
-`joined`, and what the scalar parser `f` gets is `escape(joined)`. `End` is not consumed. -/
+CDATA sections up to the end tag (comments and PIs are already skipped). The line ends of every piece are
+normalised first (`normText` / `normLineEnds`, since eab498c; until then a literal CR went through: finding F-xml-9,
+fixed). A lone text piece stays as it is otherwise (`single`, still escaped); as soon as there is a second piece or
+a CDATA section everything is unescaped into `joined`, and what the scalar parser `f` gets is `escape(joined)`.
+`End` is not consumed. -/
 def textLoop : Option Bytes → Option Bytes → List Ev → R Bytes
   | _, _, [] => .error .unexpectedEof
   | _, _, .start _ _ :: _ => .error .unexpectedStart
@@ -281,18 +309,18 @@ def textLoop : Option Bytes → Option Bytes → List Ev → R Bytes
       | some x => .ok (x, .stop n :: r)
       | none => .ok ([], .stop n :: r)
   | single, joined, .text x :: r =>
-    if single.isNone && joined.isNone then textLoop (some x) none r
+    if single.isNone && joined.isNone then textLoop (some (normText x)) none r
     else
       match joinedText single joined with
       | .error e => .error e
       | .ok buf =>
-        match decodeStr x with
+        match decodeStr (normText x) with
         | .error e => .error e
         | .ok u => textLoop none (some (buf ++ u)) r
   | single, joined, .cdata c :: r =>
     match joinedText single joined with
     | .error e => .error e
-    | .ok buf => if utf8Valid c then textLoop none (some (buf ++ c)) r else .error .invalidContent
+    | .ok buf => if utf8Valid c then textLoop none (some (buf ++ normLineEnds c)) r else .error .invalidContent
 
 /-- `Deserializer::text`: the (escaped) character data at the cursor, handed to the scalar parser -/
 def textOf (evs : List Ev) : R Bytes := textLoop none none evs
